@@ -1,0 +1,3 @@
+// Package verifhooks re-exports a few internal constructors for external verification harnesses.
+// It is empty unless built with the "verif" build tag.
+package verifhooks
